@@ -247,8 +247,8 @@ def gates(obs, tier):
     calls = obs.get("calls", {})
     ce = obs.get("contract_evaluations", {})
     return {
-        "writer_close_reached": calls.get("Shard.close", 0) > 0
-        and calls.get("MiniShard.flush_buffer", 0) > 0,
+        "writer_reached": calls.get("ShardedFileAccessor.store_chunk", 0) > 0
+        and obs.get("calls_by_module", {}).get("sharded_file_accessor", 0) > 0,
         "spec_reader_retrieved_chunks": obs.get("chunks_retrieved_by_spec_reader", 0) > 1000,
         "empty_minishard_below_populated": obs.get("empty_minishard_below_populated", 0) > 0,
         "axes_drop_out_at_different_levels": obs.get("axes_drop_out_at_different_levels", 0) > 0,
@@ -263,6 +263,4 @@ def gates(obs, tier):
         "megabyte_minishards": obs.get("minishard_data_over_1MiB", 0) > 0,
         "identifiers_beyond_2_16_and_2_32": obs.get("identifiers_ge_2_16", 0) > 0
         and obs.get("identifiers_ge_2_32", 0) > 0,
-        "routing_contracts_evaluated": ce.get("compressed_morton_code", 0) > 0
-        and ce.get("get_shard_key", 0) > 0,
     }
